@@ -46,6 +46,12 @@ def fam_padded_slots(q):
         lambda s, g: (s["passes"][0]["ruleSortKeys"][0], s["passes"][0]["rulePreContext"][0]), ((q, 0) if q + 20 <= 64 else "MUST-REJECT")
 
 
+def fam_script_tags(q):
+    tags = ", ".join('"%s"' % ("t%03d" % i) for i in range(q))
+    return HDR.replace("\n", "\nScriptTags = (%s);\n" % tags, 1) + GT + "table(sub) cA > cB; endtable;\n", [], \
+        lambda s, g: len(s["scriptTags"]), q
+
+
 def fam_features(q):
     feats = "".join('f%d { id = %d; name.1033 = string("F%d"); settings { a%d { value = 0; name.1033 = string("x"); } } default = a%d; }\n' % (i, 100 + i, i, i, i) for i in range(q))
     return HDR + GT + "table(feature)\n" + feats + "endtable;\ntable(sub) cA > cB; endtable;\n", [], None, q
@@ -131,6 +137,7 @@ FAMILIES = [
     ("rule_slots", fam_slots, [63, 64, 65, 200], 120),
     ("precontext", fam_precontext, [62, 63, 64, 200], 120),
     ("padded_rule_slots", fam_padded_slots, [42, 43, 44, 45, 60], 120),
+    ("script_tags", fam_script_tags, [254, 255, 256, 257, 400], 120),
     ("features", fam_features, [62, 63, 64, 65, 200], 120),
     ("user_attr_index", fam_userattr, [15, 16, 17, 64], 120),
     ("glyph_attrs", fam_gattrs, [250, 252, 253, 256, 300], 120),
@@ -236,7 +243,7 @@ def run(tier, seed, replay=None):
     rep.coverage.update({
         "programs": stats["cases"], "traces_validated_against_impl": stats["cases"], "disagreements_checked": len(rep.violations),
         "evaluations": stats["cases"], "distinct_nontrivial": len(distinct), "outcomes": table,
-        "rule": "17 size-parameterised families x 4-5 sizes around each limit; distinct = distinct (family, size, outcome)",
+        "rule": "18 size-parameterised families x 4-5 sizes around each limit; distinct = distinct (family, size, outcome)",
         "samples": samples, "exhaustive": False,
     })
     rep.assumptions += ["field widths are my reading of GTF; limits are re-extracted from constants.h",
